@@ -207,6 +207,8 @@ def run(ctx: Context) -> None:
     ctx.require_floor("functions examined", n_funcs, 150)
     ctx.require_floor("uses of the requested mode tuple followed", n_uses, 150)
     parallel_projections(ctx, idx, reg)
+    renumbering_loops(ctx, idx)
+    mode_masks(ctx, idx, res, reg)
     ctx.obligation("C16a", "package|fullness-tests-order-sensitive", not any(f.rule == "C16a" for f in ctx.findings))
     ctx.obligation("C16b", "package|mode-order-kept", not any(f.rule == "C16b" for f in ctx.findings))
 
@@ -238,6 +240,8 @@ def scan_order(ctx: Context, res, roots, rule_a: str, rule_b: str) -> Tuple[int,
         tp = seen[id(fn.node)]
         mt = ModesTaint(fn, tp)
         n_funcs += 1
+        bases = sorted({x.value.id for x in walk_no_nested(fn.node) if _is_modes_source(x)})
+        per_base = [mt] if len(bases) < 2 else [ModesTaint(fn, set(), b) for b in bases]
         for n in walk_no_nested(fn.node):
             # (a) fullness tests
             if isinstance(n, ast.Compare) and len(n.ops) == 1 and isinstance(n.ops[0], (ast.Eq, ast.NotEq)):
@@ -283,9 +287,8 @@ def scan_order(ctx: Context, res, roots, rule_a: str, rule_b: str) -> Tuple[int,
                                           f"reduced states come out in natural mode order", norm(n).split("\n")[0][:110])
             # (a'') an order-insensitive test (len / min / max / sum / set of the mode tuple) that selects between a value
             #       computed from the mode tuple and a substitute computed without it (both branches bind the same name)
-            bases = sorted({x.value.id for x in walk_no_nested(fn.node) if _is_modes_source(x)})
             mt0 = mt
-            for mt in ([mt0] if len(bases) < 2 else [ModesTaint(fn, set(), b) for b in bases]):
+            for mt in per_base:
               if isinstance(n, (ast.IfExp, ast.If)):
                 agg = _aggregate_names(fn, mt)
                 if _order_insensitive_test(n.test, mt, agg):
@@ -401,6 +404,77 @@ def scan_order(ctx: Context, res, roots, rule_a: str, rule_b: str) -> Tuple[int,
                 if tp2 or id(t.node) not in seen:
                     work.append((t, tp2))
     return n_funcs, n_tainted_uses
+
+
+def renumbering_loops(ctx: Context, idx) -> None:
+    """`for p in COLLECTION: A[A >= p] += 1` renumbers positions cumulatively (re-inserting removed modes, or removing them with
+    `A[A > p] -= 1`): each step changes what the next comparison sees, so the result is right only when the collection is visited
+    in ascending order - it must be iterated through `sorted(...)`."""
+    ctx.rule("C16c", "a loop that renumbers mode positions cumulatively (`A[A >= p] += 1` for p in a collection of modes) iterates the collection sorted")
+    n = 0
+    for fn in idx.all_functions():
+        if not fn.module.name.startswith("piquasso."):
+            continue
+        for loop in walk_no_nested(fn.node):
+            if not isinstance(loop, ast.For) or not isinstance(loop.target, ast.Name):
+                continue
+            v = loop.target.id
+            for st in loop.body:
+                if isinstance(st, ast.AugAssign) and isinstance(st.op, (ast.Add, ast.Sub)) and isinstance(st.target, ast.Subscript) \
+                        and isinstance(st.target.slice, ast.Compare) and len(st.target.slice.ops) == 1 \
+                        and isinstance(st.target.slice.ops[0], (ast.GtE, ast.Gt, ast.LtE, ast.Lt)) \
+                        and norm(st.target.slice.left) == norm(st.target.value) \
+                        and isinstance(st.target.slice.comparators[0], ast.Name) and st.target.slice.comparators[0].id == v:
+                    n += 1
+                    it = loop.iter
+                    is_sorted = isinstance(it, ast.Call) and (dotted(it.func) or "").split(".")[-1] in ("sorted", "sort", "unique")
+                    key = f"{fn.qualname}|renumbering loop over {norm(it)[:40]}"
+                    ctx.obligation("C16c", key, is_sorted, f"{ctx.relpath(fn.file)}:{loop.lineno}")
+                    if not is_sorted:
+                        ctx.violation("C16c", key, fn.file, loop.lineno,
+                                      f"`{norm(st)[:60]}` renumbers positions cumulatively for every element of `{norm(it)[:40]}`, which is not visited in "
+                                      f"sorted order: when the modes were registered in another order (post-selections on mode 3 and then on mode 1) "
+                                      f"the positions are mapped to the wrong modes", norm(loop).split("\n")[0][:100])
+    ctx.require_floor("C16c cumulative renumbering loops", n, 1)
+
+
+def mode_masks(ctx: Context, idx, res, reg) -> None:
+    """A boolean mask `mask[modes] = True` forgets the order of the mode tuple; selecting or storing per-mode data through it
+    (`basis[:, mask] = values_in_requested_order`) places the data in ascending mode order."""
+    ctx.rule("C16d", "no per-mode data is stored or selected through a boolean mask built from the requested mode tuple")
+    n_masks = 0
+    for fn in idx.all_functions():
+        if not fn.module.name.startswith("piquasso."):
+            continue
+        mt = ModesTaint(fn, {p for p in fn.all_params() if p in ("modes", "mode")})
+        bools: Set[str] = set()
+        for n in walk_no_nested(fn.node):
+            if isinstance(n, ast.Assign) and len(n.targets) == 1 and isinstance(n.targets[0], ast.Name) and isinstance(n.value, ast.Call) \
+                    and (dotted(n.value.func) or "").split(".")[-1] in ("zeros", "ones", "full") \
+                    and any(k.arg == "dtype" and norm(k.value) in ("bool", "np.bool_", "numpy.bool_") for k in n.value.keywords):
+                bools.add(n.targets[0].id)
+        masks: Set[str] = set()
+        for n in walk_no_nested(fn.node):
+            if isinstance(n, ast.Assign) and len(n.targets) == 1 and isinstance(n.targets[0], ast.Subscript) \
+                    and isinstance(n.targets[0].value, ast.Name) and n.targets[0].value.id in bools:
+                sl = n.targets[0].slice
+                elts = sl.elts if isinstance(sl, ast.Tuple) else [sl]
+                if any(mt.derived(e) for e in elts):
+                    masks.add(n.targets[0].value.id)
+        if not masks:
+            continue
+        n_masks += len(masks)
+        for n in walk_no_nested(fn.node):
+            if isinstance(n, ast.Assign) and len(n.targets) == 1 and isinstance(n.targets[0], ast.Subscript):
+                t = n.targets[0]
+                sl = t.slice.elts if isinstance(t.slice, ast.Tuple) else [t.slice]
+                used = [e for e in sl if isinstance(e, ast.Name) and e.id in masks]
+                if used and not isinstance(n.value, ast.Constant) and not (isinstance(t.value, ast.Name) and t.value.id in masks):
+                    key = f"{fn.qualname}|store through the mode mask {used[0].id}"
+                    ctx.violation("C16d", key, fn.file, n.lineno,
+                                  f"`{norm(n)[:80]}` stores per-mode data through the boolean mask `{used[0].id}` built from the mode tuple: the mask "
+                                  f"enumerates the modes in ascending order, so for Q(2, 0) the values end up on the wrong modes", norm(n)[:100])
+    ctx.count("C16d boolean masks built from a mode tuple", n_masks)
 
 
 def parallel_projections(ctx: Context, idx, reg) -> None:
